@@ -1,5 +1,5 @@
 #!/bin/bash
-# For every seeded change: apply to /repo, run ALL quick checks, record which fire, revert.
+# For every seeded change: apply to /repo, run ALL quick checks (4 at a time), record which fire, revert.
 # usage: tools/matrix.sh [dirs...]   (default: all of seeded/*)
 cd /verif
 DIRS=${@:-$(ls -d seeded/*/ )}
@@ -10,11 +10,14 @@ for D in $DIRS; do
   if [ -n "$(git status --porcelain --untracked-files=no)" ]; then echo "/repo dirty"; exit 2; fi
   git apply /verif/$D/patch.diff || { echo "$D: patch does not apply"; continue; }
   cd /verif
+  mkdir -p /tmp/matrix_out
+  printf "%s\n" C01 C02 C03 C04 C05 C06 C07 C08 C09 C10 C11 C12 C13 C14 C15 C16 C17 C18 | \
+    xargs -P ${MATRIX_PAR:-4} -I{} sh -c './check {} --tier quick > /tmp/matrix_out/{}.out 2>&1; echo $? > /tmp/matrix_out/{}.rc'
   line=""
   for p in C01 C02 C03 C04 C05 C06 C07 C08 C09 C10 C11 C12 C13 C14 C15 C16 C17 C18; do
-    ./check $p --tier quick > /tmp/matrix_$p.out 2>&1; rc=$?
-    n=$(grep -c '^VIOLATION' /tmp/matrix_$p.out)
+    rc=$(cat /tmp/matrix_out/$p.rc); n=$(grep -c '^VIOLATION' /tmp/matrix_out/$p.out)
     line="$line $p=$rc/$n"
+    if [ "$rc" = "2" ]; then echo "   $(basename $D) $p: $(grep -m1 INCONCLUSIVE /tmp/matrix_out/$p.out | cut -c1-300)" >> /verif/seeded/matrix_inconclusive.txt; fi
   done
   git -C /repo checkout -- .
   echo "$(basename $D):$line" | tee -a /verif/seeded/matrix_raw.txt
